@@ -62,7 +62,8 @@ func c06Decl(mask int, layout int, onB bool, cmdRequired bool, withConfig bool) 
 		{Field: "A1", Short: "q", Long: "aone", Type: decl.TFunc0, Required: req(2)},
 		{Field: "A2", Long: "atwo", Type: decl.TString, Required: req(3)},
 	}}
-	cc := &decl.Cmd{Field: "C", Name: "c", Opts: []*decl.Opt{{Field: "C1", Short: "t", Long: "cone", Type: decl.TBool, Required: req(5)}}}
+	// c's option re-declares the long name of the parser's first option (inside c, --pone is c's; the parser's stays -p)
+	cc := &decl.Cmd{Field: "C", Name: "c", Opts: []*decl.Opt{{Field: "C1", Short: "t", Long: "pone", Type: decl.TBool, Required: req(5)}}}
 	top.Cmds = []*decl.Cmd{a, cc}
 	pos, preq := c06Pos(layout)
 	if onB {
@@ -77,7 +78,7 @@ func c06Decl(mask int, layout int, onB bool, cmdRequired bool, withConfig bool) 
 	return (&decl.Decl{Top: top, Options: flags.PassDoubleDash}).Finish()
 }
 
-var c06Units = [][]string{{"-p"}, {"--p%two=v"}, {"-P", "v"}, {"a"}, {"-q"}, {"--atwo", "v"}, {"b"}, {"-r"}, {"c"}, {"-t"}, {"-pq"}, {"w"}, {"x"}, {"--"}, {""}}
+var c06Units = [][]string{{"-p"}, {"--p%two=v"}, {"-P", "v"}, {"a"}, {"-q"}, {"--atwo", "v"}, {"b"}, {"-r"}, {"c"}, {"-t"}, {"--pone"}, {"-pq"}, {"w"}, {"x"}, {"--"}, {""}}
 
 func init() {
 	cache := map[string]*decl.Decl{}
@@ -213,7 +214,7 @@ func init() {
 		ShardDepth: 2,
 		Body:       body,
 		DevBound:   func(bool) int { return 1 },
-		Rule: "tree parser -> a -> b, sibling c, 6 options; all 64 subsets marked required (spellings yes/true/1, the others unmarked or marked false/no/0) x positional layouts " +
+		Rule: "tree parser -> a -> b, sibling c, 6 options (c's option re-declares the long name of one of the parser's); all 64 subsets marked required (spellings yes/true/1, the others unmarked or marked false/no/0) x positional layouts " +
 			"{none, 2 scalars struct-required, per-field required, rest required 2, 1-2, 0-1, optional, two scalars made required by setting Command.ArgsRequired in the program} on b or on the parser x {tags, API} x every sequence of <= 3 (quick) / <= 4 (thorough) units " +
 			"supplying options by short, long=, separate and cluster spellings, command words, plain words, the empty word and the -- terminator (PassDoubleDash set; words after it still count for the positional constraints); one more deviation makes subcommands mandatory at both inner levels (a missing required option is still ErrRequired, not ErrCommandRequired); option types bool, string, func(), []bool; one more deviation has an INI file supply two of the options, read before the parse (plain or as defaults) or by the default of a callback option declared after them; oracle = CLM missing set: ErrRequired iff something on the active chain is missing, " +
 			"message names every missing item and none that is supplied or belongs to an unselected command; nothing executed",
